@@ -89,9 +89,20 @@ def run(repo, res):
                   '(anchor of the binding lies textually after these expressions in the same region): '
                   'false E02 there' % (key, nv),
                   sample='%s visible at every later sibling expression' % key)
+        if r.get('np_of_stmt'):
+            res.check('C01-R4', key + ' visible from the first token of the block', False, line[0], line[1],
+                      'binding %s becomes visible at np(%s), the position the parser gives that statement; for a decorated def / async def '
+                      '/ class this is the keyword, not the `@`: a read of the name in the decorators of a definition that opens the '
+                      'block gets E02 (and the binding W01)' % (key, r['np_of_stmt'][0][1]))
         res.check('C01-R4', key + ' after', not r['not_after'], line[0], line[1],
                   'binding %s does not reach the code after the construct' % key, nontrivial=False)
     res.count('binders', len(brecs), floor=45)
+    from ..exprend import first_statement_layouts
+    for text, ok, detail in first_statement_layouts(repo):
+        if ok is None:
+            raise AnalysisError('get_first_body_node_loc is outside the interpretable subset on %r: %s' % (text, detail))
+        res.check('C01-R4', 'first token of a body starting with %r' % text.splitlines()[0 if not text.startswith('@') else len([l for l in text.splitlines() if l.startswith('@')])],
+                  ok, 'supp/scope.py', 0, detail, sample='parameters visible from the first token of %r' % text.splitlines()[0])
 
     drecs = R.declaration_records(repo)
     nl = drecs.get('Nonlocal')
